@@ -1515,8 +1515,44 @@ func c10r11(p *Program, r *Report) {
 				}
 				return false
 			}
+			// test-and-mark in one helper: seen.add(h) on a seen-set type whose method stores recv[param]
+			testAndMark := func(c *ast.CallExpr) (string, bool) {
+				sel, isSel := ast.Unparen(c.Fun).(*ast.SelectorExpr)
+				if !isSel || !isSeenSet(sel.X) || len(c.Args) != 1 {
+					return "", false
+				}
+				fn := calleeOf(info, c)
+				if fn == nil {
+					return "", false
+				}
+				h := p.FuncOf(fn)
+				if h == nil || h.Decl.Body == nil || h.Decl.Recv == nil || len(h.Decl.Recv.List) != 1 || len(h.Decl.Recv.List[0].Names) != 1 {
+					return "", false
+				}
+				hinfo := h.Pkg.TypesInfo
+				recv := hinfo.Defs[h.Decl.Recv.List[0].Names[0]]
+				par := paramObj(hinfo, h.Decl.Type, 0)
+				stores := false
+				ast.Inspect(h.Decl.Body, func(y ast.Node) bool {
+					if as, isA := y.(*ast.AssignStmt); isA {
+						for _, l := range as.Lhs {
+							if ix, isIx := ast.Unparen(l).(*ast.IndexExpr); isIx && isIdentOf(hinfo, ix.X, recv) && isIdentOf(hinfo, ix.Index, par) {
+								stores = true
+							}
+						}
+					}
+					return true
+				})
+				// every path that does not store found the host present: the store is not conditional on anything else
+				return exprStr(c.Args[0]), stores
+			}
 			// the hosts that are subject to a seen-set test in this function
 			tested := map[string]bool{}
+			for _, c := range callsIn(fi.Decl.Body) {
+				if k, ok := testAndMark(c); ok {
+					tested[k] = true
+				}
+			}
 			ast.Inspect(fi.Decl.Body, func(x ast.Node) bool {
 				if ix, ok := x.(*ast.IndexExpr); ok && isSeenSet(ix.X) {
 					if as, isAs := p.Parent(ix).(*ast.AssignStmt); isAs {
@@ -1546,6 +1582,11 @@ func c10r11(p *Program, r *Report) {
 				Step: func(s wst, st Step) wst {
 					if st.Kind != StNode {
 						return s
+					}
+					for _, c := range callsIn(st.Node) {
+						if k, ok := testAndMark(c); ok {
+							s = wst{s.marked.with(k), s.pending.without(k)}
+						}
 					}
 					as, ok := st.Node.(*ast.AssignStmt)
 					if !ok {
@@ -1585,6 +1626,11 @@ func c10r11(p *Program, r *Report) {
 						if ix, isIx := y.(*ast.IndexExpr); isIx && isSeenSet(ix.X) {
 							has = true
 						}
+						if c, isC := y.(*ast.CallExpr); isC {
+							if _, ok := testAndMark(c); ok {
+								has = true
+							}
+						}
 						return true
 					})
 					// innermost such loop only
@@ -1595,6 +1641,11 @@ func c10r11(p *Program, r *Report) {
 								inspectNoLit(f2.Body, func(z ast.Node) bool {
 									if ix, isIx := z.(*ast.IndexExpr); isIx && isSeenSet(ix.X) {
 										inner = true
+									}
+									if c, isC := z.(*ast.CallExpr); isC {
+										if _, ok := testAndMark(c); ok {
+											inner = true
+										}
 									}
 									return true
 								})
@@ -1939,18 +1990,28 @@ func c06r15(p *Program, r *Report) {
 // dropped, strategy unknown, no ring): the copy is made under key != keyspace, or the entry is overwritten / deleted
 // on every path afterwards.
 func c11r12(p *Program, r *Report) {
-	fi := r.NeedFunc("(*tokenAwareHostPolicy).updateReplicas")
-	if fi == nil {
-		return
-	}
 	replF := p.Field("clusterMeta", "replicas")
 	if replF == nil {
 		r.Unresolved("clusterMeta.replicas not found")
 		return
 	}
 	n := 0
-	for _, u := range p.unitsOf(fi) {
+	// wherever the old map is walked (the function is found by the field, not by its name)
+	for _, u := range p.SortedFuncs() {
+		if u.Decl.Body == nil || u.Pkg != p.Root {
+			continue
+		}
 		info := u.Pkg.TypesInfo
+		walks := false
+		inspectNoLit(u.Decl.Body, func(x ast.Node) bool {
+			if rg, ok := x.(*ast.RangeStmt); ok && fieldOf(info, rg.X) == replF {
+				walks = true
+			}
+			return true
+		})
+		if !walks {
+			continue
+		}
 		// the keyspace being updated: the string parameter
 		var kp types.Object
 		if u.Decl.Type.Params != nil {
